@@ -411,6 +411,30 @@ def proto_data_received(u: U):
                 "Connection: close (or HTTP/1.0 without keep-alive) marks the protocol unusable")
 
 
+@unit("C06", "const.bodiless_status_codes", kind="lemma", functions=["aiohttp.helpers:EMPTY_BODY_STATUS_CODES"], also=("C02",))
+def const_bodiless_status_codes(u: U):
+    """the LIVE set of status codes for which the response parser and ResponseHandler take a response to end at its header
+    block, whatever framing headers it carries, is exactly RFC 9112 6.3 rule 1: 1xx, 204, 304 (HEAD is handled by method).
+    Any other code in it (205, say, which merely SHOULD NOT carry content) would make the client release a connection on
+    which the announced Content-Length bytes are still to come: they are then read as the head of the next response."""
+    import importlib
+
+    from pyvc import instrument
+
+    instrument._ensure_repo_on_path()
+    H = importlib.import_module("aiohttp.helpers")
+    P = importlib.import_module("aiohttp.http_parser")
+    CP = importlib.import_module(PROTO)
+    want = frozenset({204, 304}) | frozenset(range(100, 200))
+    for name, got in (("helpers", H.EMPTY_BODY_STATUS_CODES), ("http_parser", P.EMPTY_BODY_STATUS_CODES),
+                      ("client_proto", CP.EMPTY_BODY_STATUS_CODES)):
+        extra, missing = sorted(set(got) - want), sorted(want - set(got))
+        u.check("C06.const.bodiless_status_codes_are_1xx_204_304", not extra and not missing,
+                f"{name}.EMPTY_BODY_STATUS_CODES: not in RFC 9112 6.3(1): {extra}; missing: {missing}",
+                witness={"module": name, "extra": extra, "missing": missing},
+                also_as=("C02.const.bodiless_status_codes_are_1xx_204_304",))
+
+
 @unit("C06", "proto.set_response_params", functions=[f"{PROTO}:ResponseHandler.set_response_params"])
 def proto_set_response_params(u: U):
     """every request installs a FRESH parser; bytes that were waiting in _tail are replayed into it (only)"""
